@@ -150,6 +150,10 @@ func setSessionKeys(ctx *context) error {
 }
 
 func createJoinAnsPayload(ctx *context) error {
+	if ctx.joinReqPayload.RxDelay < 0 || ctx.joinReqPayload.RxDelay > 15 {
+		return errors.New("RxDelay must be in the range 0 - 15")
+	}
+
 	var cFList *lorawan.CFList
 	if len(ctx.joinReqPayload.CFList[:]) != 0 {
 		cFList = new(lorawan.CFList)
